@@ -599,7 +599,7 @@ func TestChildProbes(t *testing.T) {
 	probes := probeList(lang)
 	res := make([]string, len(probes))
 	for _, i := range probeOrder(len(probes), mode, seed) {
-		res[i] = runOwn(call{e: pe, in: []byte(probes[i]), prog: []byte{byte(opt)}})
+		res[i] = runOwn(call{e: pe, in: []byte(probes[i]), prog: []byte{byte((opt + i) % 4)}})
 	}
 	for i, r := range res {
 		fmt.Printf("PROBE %d %s\n", i, r[:16])
@@ -607,7 +607,7 @@ func TestChildProbes(t *testing.T) {
 }
 
 func TestProp_FreshProcess(t *testing.T) {
-	ev.Describe("fresh", "for a drawn language, lexer/parser entry point and option byte: the digests of every probe (each hostile fragment alone and in three contexts, every literal of the package's tests) computed in this process in list order must equal those computed by a fresh child process that meets the same probes in reverse or in a strided order; non-trivial = every case")
+	ev.Describe("fresh", "for a drawn language, entry point and option byte (which then changes from probe to probe): the digests of every probe (each hostile fragment alone and in three contexts, every literal of the package's tests) computed in this process in list order must equal those computed by a fresh child process that meets the same probes in reverse or in a strided order; non-trivial = every case")
 	ev.Assume("the child process is the same test binary (os.Args[0]) started with VERIF_C20_CHILD; it reads the same repository literals")
 	byLang := map[string][]int{}
 	for i, e := range entries {
@@ -617,7 +617,7 @@ func TestProp_FreshProcess(t *testing.T) {
 			}
 		}
 	}
-	ev.Check(t, 3, func(t *rapid.T) {
+	ev.Check(t, 10, func(t *rapid.T) {
 		lang := rapid.SampledFrom(probeLangs).Draw(t, "lang")
 		pe := rapid.SampledFrom(byLang[lang]).Draw(t, "probe-entry")
 		opt := rapid.IntRange(0, 3).Draw(t, "options")
@@ -642,7 +642,9 @@ func TestProp_FreshProcess(t *testing.T) {
 			t.Fatalf("VERIF-INFRA child reported %d of %d probes\n%.2000s", len(child), len(probes), out)
 		}
 		for i, p := range probes {
-			r := runOwn(call{e: pe, in: []byte(p), prog: []byte{byte(opt)}})
+			// (the option byte, the caller's configuration, changes from probe to probe: what one configuration leaves
+			// behind is met by the others in another order)
+			r := runOwn(call{e: pe, in: []byte(p), prog: []byte{byte((opt + i) % 4)}})
 			if r[:16] != child[i] {
 				t.Fatalf("%s(%q, option %d): this process (probes in list order) gets %s, a fresh process that meets the probes in %s order gets digest %s", entries[pe].name, p, opt, r, mode, child[i])
 			}
